@@ -87,6 +87,7 @@ txt = {
  "V_via4q1": "SIP/2.0/UDP pc33.a.example;foo=\"bar\";branch=z9hG4bK-776.asd_hds", "V_via4q2": "SIP/2.0/UDP pc33.a.example;foo=\"b;branch=x\\\"r,\" ;branch=z9hG4bK-776.asd_hds",
  "V_via4q3": "SIP/2.0/UDP pc33.a.example;rport;received=\"1.2.3.4\";x=\"\";branch=z9hG4bK-776.asd_hds;y=\"z\"", "V_via4q4": "SIP/2.0/UDP pc33.a.example ; ttl = 1 ;maddr=224.2.0.1;branch=z9hG4bK-776.asd_hds , SIP/2.0/UDP g;branch=other",
  "V_via4q5": "SIP/2.0/UDP pc33.a.example;BRANCH=z9hG4bK-776.asd_hds", "V_via4q6": "SIP/2.0/UDP [2001:db8::1]:5060;branchx=1;xbranch=2;branch=z9hG4bK-776.asd_hds;branc=second",
+ "V_via9": "SIP/2.0/UDP h;received=1.2.3.4-x_y;branch", "V_via10": "SIP/2.0/UDP h;maddr=a.b-c;branch=;rport", "V_via11": "SIP/2.0/UDP h;x=z9hG4bK-a.b;branch ;ttl=1-2",
  "V_maxfwd2": "0", "V_ua2": "x/2 (y)", "V_cseq5": "1 INVITE",
 }
 
